@@ -58,6 +58,12 @@ def run_one(mut, repo):
     try:
         with open(os.path.join(dst, mut['file']), 'w') as fh:
             fh.write(text.replace(mut['old'], mut['new'], 1))
+        for (f2, o2, n2) in mut.get('more', []):
+            t2 = open(os.path.join(dst, f2)).read()
+            if o2 not in t2:
+                return 'stale', 'anchor text of a secondary edit not present'
+            with open(os.path.join(dst, f2), 'w') as fh:
+                fh.write(t2.replace(o2, n2, 1))
         try:
             bad = evaluate(mut['property'], dst)
         except factsmod.FactsError as e:
